@@ -36,7 +36,7 @@ def _mk_input(case, spec):
     out = []
     for i, p in enumerate(case['pts']):
         if spec['kind'] == 'nd':
-            out.append(np.array(p[spec['idx'][0]], dtype=float))
+            out.append(np.array(p[spec['idx'][0]], dtype=spec.get('dtype', 'float64')))
         else:
             D, P = spec['D'], len(spec['idx'])
             data = np.zeros((D, P) + p.shape[1:])
@@ -76,7 +76,9 @@ def _same(got, ref, what):
         raise Violation('%s: dtype %s, direct execution %s' % (what, g.dtype, r.dtype))
     err = np.abs(g - r) / np.maximum(1.0, np.abs(r))
     e = float(np.max(err)) if np.all(np.isfinite(g)) else float('inf')
-    if e > TOL:
+    if g.dtype != r.dtype and 'float32' in (str(g.dtype), str(r.dtype)):
+        raise Violation('%s: dtype %s, direct execution %s' % (what, g.dtype, r.dtype))
+    if e > (TOL if r.dtype != np.float32 else 1e-5):
         i = np.unravel_index(int(np.argmax(np.where(np.isfinite(err), err, np.inf))), err.shape)
         raise Violation('%s: value at %s is %r, direct execution gives %r (rel. %.2e)' % (what, i, g[i].item(), r[i].item(), e))
     return e
@@ -102,7 +104,7 @@ def expected_trace(case):
                 names += ['neg', 'Id', 'add']
             else:
                 names += ['Id', BIN_NAME[ins[1]]]
-        elif op == 'pow':
+        elif op in ('pow', 'powreg'):
             names.append('pow')
         elif op == 'neg':
             names.append('neg')
@@ -232,10 +234,10 @@ def prop_replay(case, stats):
 
 
 @st.composite
-def eval_spec(draw, pts, K, kinds=('nd', 'utpm'), Dmax=4):
+def eval_spec(draw, pts, K, kinds=('nd', 'utpm'), Dmax=4, plain_dtypes=False):
     kind = draw(st.sampled_from(list(kinds)))
     if kind == 'nd':
-        return {'kind': 'nd', 'idx': [draw(st.integers(0, K - 1))]}
+        return {'kind': 'nd', 'idx': [draw(st.integers(0, K - 1))], 'dtype': draw(st.sampled_from(['float64', 'float64', 'float32'])) if plain_dtypes else 'float64'}
     D = draw(st.sampled_from([2, 3, 1, Dmax]))
     P = draw(st.sampled_from([2, 1, 3]))
     idx = [draw(st.integers(0, K - 1)) for _ in range(P)]
@@ -254,7 +256,7 @@ def replay_cases(draw, tier, first=None, families=None, max_len=8, min_len=1):
     nrep = draw(st.integers(1, 4))
     case['replays'] = []
     for _ in range(nrep):
-        rp = draw(eval_spec(pr['pts'], K))
+        rp = draw(eval_spec(pr['pts'], K, plain_dtypes=True))
         rp['via'] = draw(st.sampled_from(['function', 'pushforward']))
         case['replays'].append(rp)
     return case
@@ -271,7 +273,7 @@ def _nontrivial(case):
 
 
 def _classes(case):
-    c = ['rec=' + case['rec']['kind'], 'replays=%d' % len(case['replays'])]
+    c = ['rec=' + case['rec']['kind'], 'replays=%d' % len(case['replays'])] + (['replay:float32-ndarray'] if any(r.get('dtype') == 'float32' for r in case['replays']) else [])
     for r in case['replays']:
         c.append('replay:%s->%s' % (case['rec']['kind'], r['kind']))
     if any(r['kind'] == 'utpm' and case['rec']['kind'] == 'utpm' and _sig(r) != _sig(case['rec']) for r in case['replays']):
@@ -280,7 +282,7 @@ def _classes(case):
     return c
 
 
-SINGLE = ['un', 'kink', 'special', 'unp', 'bin', 'bcast', 'binc', 'pow', 'neg', 'get', 'T', 'reshape', 'buf', 'set', 'rmw', 'sum', 'prod', 'trace',
+SINGLE = ['un', 'kink', 'special', 'unp', 'bin', 'bcast', 'binc', 'pow', 'powreg', 'neg', 'get', 'T', 'reshape', 'buf', 'set', 'rmw', 'sum', 'prod', 'trace',
           'dot', 'dotc', 'dotnd', 'outer', 'inv', 'solve', 'det', 'logdet', 'qr', 'chol', 'eigh', 'svd', 'lu', 'fft', 'tile', 'diag',
           'symvec']
 CHEAP_TAIL = ['un', 'bin', 'binc', 'neg', 'get', 'set']
